@@ -11,6 +11,7 @@ import Pose.Model.Imu
   mode 0: the model of the code (`Imu.call`, carried state threaded through the calls);
   mode 1: the documented specification (`compose ∘ preSeq`, `covSeq`), same state threading.
   reply : per call  F×(rot4 vel3 pos3)  then cov(81) when propcov = 1.
+`imu.integrate eps g R0(4) F hasrot frame×F`  reply: per frame Dr(4) Dv(3) Dp(3) Dt(1) a(3) (the `integrate` dict)
 `imu.codeleft`                 reply: 1/0 — the product order the model of the code uses in `propagate_cov`
 `imu.shape d…`                 reply: the `_check`ed shape
 `imu.rankok ra rd rg`          reply: 0/1 (the assert on the three ranks)
@@ -117,7 +118,26 @@ def pHist : P (List B) := do
   if !(← get).isEmpty then throw "trailing"
   return out.toList
 
+/-- `imu.integrate eps g R0(4) F hasrot frame×F` → per frame `Dr(4) Dv(3) Dp(3) Dt(1) a(3)` of `integrate` -/
+def pInteg : P (List B) := do
+  let eps ← pNum; let g ← pNum
+  let r0 ← pQ
+  let F ← pNat; let hasrot ← pNat
+  let frs ← pRep F (pFrame (hasrot == 1))
+  let arr := frs.toArray
+  let fr : Nat → Frame B := fun j => arr.getD j zeroFrame
+  let I := integrate eps ⟨BigF.zero, BigF.zero, g⟩ r0 fr F
+  let mut out : Array B := #[]
+  for j in [0:F] do
+    out := out ++ (qAt I.incR (j+1)).toList.toArray ++ (vAt I.incV (j+1)).toList.toArray
+      ++ (vAt I.incP (j+1)).toList.toArray ++ #[sAt I.incT j] ++ (vAt I.a j).toList.toArray
+  if !(← get).isEmpty then throw "trailing"
+  return out.toList
+
 def opsC16 : List (String × Handler) := [
+  ("imu.integrate", fun ts => do
+      let (ys, _) ← pInteg.run ts
+      return fmt ys),
   ("imu.hist", fun ts => do
       let (ys, _) ← pHist.run ts
       return fmt ys),
